@@ -154,6 +154,10 @@ def main():
                     for inv in mem.invocation_metadata.invocations:
                         ev["invs"].append([inv.fn_reference.qualified_name, bool(inv.fn_reference.external)])
                 ev["nlisted"] = len(fn.list_mementos())
+                ev["others"] = []
+                for other in op.get("also", []):          # listings of the other functions of the program must work too
+                    if hasattr(mod, other):
+                        ev["others"].append([other, len(getattr(mod, other).list_mementos())])
                 ev["functions"] = sorted(x.qualified_name for x in m.list_memoized_functions(fn.cluster_name))
             elif kind == "exec_def":
                 if op.get("module"):           # a definition that lives in the package's __init__ module
